@@ -37,8 +37,9 @@ PHIS = [90.0, 89.9, 66.5, 38.92, 23.0, 1e-7, 0.0, -23.0, -38.92, -66.5, -89.9, -
 
 
 def bound(tier):
+    lons, lats = lattice_for(tier)
     return ("%d longitudes x %d latitudes x (5 obliquities + 12 observer latitudes + galactic); "
-            "all pairs of a 40-direction subset per conversion" % (len(LONS), len(LATS)))
+            "all pairs of a 40-direction subset per conversion" % (len(lons), len(lats)))
 
 
 def image(kind, lon, lat, par):
@@ -131,10 +132,19 @@ def check_dir(case):
     return out
 
 
-def dir_cases():
+def lattice_for(tier):
+    if tier != "thorough":
+        return LONS, LATS
+    lons = sorted(set(LONS_SEAM + [i * 5.0 + 0.123 for i in range(72)] + [i * 45.0 for i in range(8)]))
+    lats = sorted(set(LATS + [i * 2.5 for i in range(-35, 36)] + [89.5, -89.5, 88.0, -88.0]))
+    return lons, lats
+
+
+def dir_cases(tier="quick"):
     cases = []
-    for lon in LONS:
-        for lat in LATS:
+    lons, lats = lattice_for(tier)
+    for lon in lons:
+        for lat in lats:
             for e in OBLS:
                 cases.append({"pair": "ecliptical", "lon": lon, "lat": lat, "par": e})
             for p in PHIS:
@@ -268,8 +278,13 @@ def check_metric(case):
     return out
 
 
-def metric_cases():
-    return [{"lon": lo, "lat": la, "sep": s, "pa": pa} for (lo, la) in BASES for s in SEPS for pa in PAS]
+def metric_cases(tier="quick"):
+    bases, pas = BASES, PAS
+    if tier == "thorough":
+        bases = [(lo, la) for lo in (0.0, 10.0, 123.0, 200.0, 300.0, 359.9999, 1e-7)
+                 for la in (-89.9, -89.0, -60.0, -30.0, -1e-6, 0.0, 23.44, 45.0, 88.0, 89.9)]
+        pas = [0.0, 37.0, 90.0, 135.0, 180.0, 200.0, 270.0, 359.0]
+    return [{"lon": lo, "lat": la, "sep": s, "pa": pa} for (lo, la) in bases for s in SEPS for pa in pas]
 
 
 def run_metric(block, ctx):
@@ -378,11 +393,11 @@ def run_line(block, ctx):
 
 def clauses(tier):
     return [
-        Clause("directions", chunks(dir_cases(), 64), run_dirs,
+        Clause("directions", chunks(dir_cases(tier), 64), run_dirs,
                lambda c: [m for _, m, _ in check_dir(c)], floor=2000),
         Clause("rigidity", chunks(pair_cases(), 18), run_pairs,
                lambda c: [m for _, m, _ in check_pairs(c)], floor=10),
-        Clause("metric", chunks(metric_cases(), 16), run_metric,
+        Clause("metric", chunks(metric_cases(tier), 16), run_metric,
                lambda c: [m for _, m, _ in check_metric(c)], floor=100),
         Clause("circle", chunks(circle_cases(), 8), run_circle,
                lambda c: [m for _, m, _ in check_circle(c)], floor=100),
